@@ -1,6 +1,6 @@
 (* C06 — liveness of the model's fair scheduler under a frozen honest source: every scheduler step
    decreases [fair_measure]; hence the fair run reaches local = source within [fair_measure s] steps. *)
-From Coq Require Import List NArith Bool Lia ZifyN ZifyNat ZifyBool.
+From Coq Require Import List NArith Bool Lia ZifyN ZifyNat ZifyBool PeanoNat.
 From V Require Import C06.Model C06.Proofs C06.Proofs_B C06.Proofs_C.
 Import ListNotations.
 Open Scope N_scope.
@@ -149,5 +149,511 @@ Proof.
   unfold NW; intros s s' b Es El Hb Hls Hll [H1 [H2 _]]. rewrite Es, El in *.
   destruct (src s) as [|t [|? ?]] eqn:E; simpl in H1; try lia.
   destruct Hb as [->|[]]. apply linked_single in Hls.
-  pose proof (linked_length _ _ Hll). simpl in H2. lia.
+  pose proof (linked_length _ _ Hll) as HL. destruct Hls as [Hz _].
+  change (length (b :: loc s)) with (S (length (loc s))) in *. lia.
+Qed.
+
+Lemma honest_src : forall s e s', honest e = true -> step s e = Some s' -> src s' = src s.
+Proof.
+  intros s e s' Hh H. unfold step in H.
+  destruct e; try discriminate Hh; break_step H; simpl; auto;
+    unfold stop_revert, do_store, do_revert; simpl; auto.
+Qed.
+
+Lemma sched_honest : forall s e, sched s = Some e -> honest e = true.
+Proof.
+  intros s e H. unfold sched in H.
+  repeat match type of H with
+  | context [match ?x with _ => _ end] => destruct x; try discriminate H
+  end; injection H as <-; reflexivity.
+Qed.
+
+(* a scheduler step that leaves both chains alone and lowers the phase *)
+Lemma progress_same : forall s e s',
+  Live s -> sched s = Some e -> step s e = Some s' ->
+  match e with StoreOk _ | RevertOne => False | _ => True end ->
+  loc s' = loc s -> XL s' -> XR s' ->
+  (base s' * 4 + length (obox s') < base s * 4 + length (obox s))%nat -> Progress s.
+Proof.
+  intros s e s' [HG [_ [_ [HNT HNW]]]] Hs Hst He El HXL HXR Hm.
+  pose proof (sched_honest s e Hs) as Hh.
+  pose proof (honest_src s e s' Hh Hst) as Es.
+  destruct (measure_step s e s' HG Hh Hst) as [HG' Hd].
+  exists e, s'. split; [auto|]. split; [auto|]. split.
+  - split; [exact HG'|]. split; [exact HXL|]. split; [exact HXR|].
+    split; [eapply NT_frame; eauto|eapply NW_frame; eauto].
+  - unfold fair_measure. destruct e; try contradiction; rewrite Hd; lia.
+Qed.
+
+(* a StoreOk / RevertOne chosen by the scheduler *)
+Lemma progress_chain : forall s e s',
+  Live s -> sched s = Some e -> step s e = Some s' ->
+  (exists b, e = StoreOk b) \/ e = RevertOne ->
+  XL s' -> XR s' -> NT s' -> NW s' -> (length (obox s') <= 2)%nat -> Progress s.
+Proof.
+  intros s e s' [HG _] Hs Hst He HXL HXR HNT HNW Ho.
+  pose proof (sched_honest s e Hs) as Hh.
+  destruct (measure_step s e s' HG Hh Hst) as [HG' Hd].
+  exists e, s'. split; [auto|]. split; [auto|]. split; [unfold Live; tauto|].
+  unfold fair_measure. pose proof (base_le s').
+  destruct He as [[b ->]| ->]; lia.
+Qed.
+
+(* ---------- the scheduler's cases ---------- *)
+Lemma prog_notify : forall s o r, Live s -> obox s = o :: r -> Progress s.
+Proof.
+  intros s o r HL Eo. pose proof HL as [_ [HXL [HXR _]]].
+  destruct o as [b|a b].
+  - eapply progress_same with (e := NotifyNewHead).
+    + exact HL.
+    + unfold sched; rewrite Eo; reflexivity.
+    + simpl; rewrite Eo; reflexivity.
+    + exact I.
+    + reflexivity.
+    + exact HXL.
+    + exact HXR.
+    + simpl. rewrite Eo. simpl. change (base _) with (base s) at 1. lia.
+  - eapply progress_same with (e := NotifyReorg).
+    + exact HL.
+    + unfold sched; rewrite Eo; reflexivity.
+    + simpl; rewrite Eo; reflexivity.
+    + exact I.
+    + reflexivity.
+    + exact HXL.
+    + exact HXR.
+    + simpl. rewrite Eo. simpl. change (base _) with (base s) at 1. lia.
+Qed.
+
+Lemma Live_linked_loc : forall s, Live s -> linkedb (loc s) = true.
+Proof. intros s [[[_ [[_ [Hl _]] _]] _] _]. exact Hl. Qed.
+
+Ltac sched_rrun Eo Erv El :=
+  unfold sched; rewrite Eo, Erv, ?El.
+
+Lemma prog_rrun : forall s lpv cmp ev fresh, Live s -> obox s = [] ->
+  rv s = RRun lpv cmp ev fresh -> Progress s.
+Proof.
+  intros s lpv cmp ev fresh HL Eo Erv.
+  pose proof HL as [HG [HXL [HXR [HNT HNW]]]]. pose proof (Live_linked_loc s HL) as Hll.
+  unfold XR in HXR. rewrite Erv in HXR. destruct HXR as [HC HF].
+  assert (Hoe : obox_empty s = true) by (unfold obox_empty; rewrite Eo; reflexivity).
+  destruct (loc s) as [|hd rest] eqn:El.
+  - (* empty chain: HeadsHeader fails *)
+    assert (fresh = false) as ->.
+    { destruct fresh; auto. destruct (HF eq_refl) as [? [? [E _]]]. discriminate. }
+    eapply progress_same with (e := RevertStop).
+    + exact HL.
+    + unfold sched. rewrite Eo, Erv, El. reflexivity.
+    + simpl. rewrite Erv, El. reflexivity.
+    + exact I.
+    + reflexivity.
+    + exact HXL.
+    + unfold XR; simpl. exact I.
+    + unfold base at 1. simpl. unfold base. rewrite Erv, Eo. destruct cmp; simpl; lia.
+  - destruct (lpv <? num hd) eqn:Elt.
+    + (* head newer than lpv *)
+      assert (cmp = None) as ->.
+      { destruct cmp; auto. destruct HC as [hd' [rest' [E Hle]]]; [discriminate|].
+        injection E as <- <-. apply N.ltb_lt in Elt. lia. }
+      eapply progress_chain with (e := RevertOne).
+      * exact HL.
+      * unfold sched. rewrite Eo, Erv, El, Elt. reflexivity.
+      * simpl. rewrite Erv, El, Hoe, Elt. reflexivity.
+      * right; reflexivity.
+      * exact HXL.
+      * unfold XR; simpl. split; [intros H; contradiction|intros H; discriminate].
+      * eapply NT_pop with (s := s) (b := hd); simpl; auto.
+      * eapply NW_pop with (s := s) (b := hd); simpl; auto. rewrite El; auto.
+      * simpl. rewrite Eo. simpl; lia.
+    + assert (Hle : num hd <= lpv) by (apply N.ltb_ge in Elt; lia).
+      assert (Hleb : (num hd <=? lpv) = true) by (apply N.leb_le; auto).
+      destruct cmp as [[rb|]|].
+      * (* comparison made *)
+        destruct (bid rb =? bid hd) eqn:Eb.
+        -- assert (fresh = false) as ->.
+           { destruct fresh; auto. destruct (HF eq_refl) as [hd' [rest' [E [H|[[H _]|[rb' [H Hd]]]]]]];
+               injection E as <- <-; try discriminate.
+             - apply N.ltb_lt in H. congruence.
+             - injection H as <-. apply N.eqb_eq in Eb. contradiction. }
+           eapply progress_same with (e := RevertStop).
+           ++ exact HL.
+           ++ unfold sched. rewrite Eo, Erv, El, Elt, Eb. reflexivity.
+           ++ simpl. rewrite Erv, El, Elt, Eb. reflexivity.
+           ++ exact I.
+           ++ reflexivity.
+           ++ exact HXL.
+           ++ unfold XR; simpl. exact I.
+           ++ unfold base at 1. simpl. unfold base. rewrite Erv, Eo. simpl; lia.
+        -- destruct (par rb =? par hd) eqn:Ep.
+           ++ eapply progress_chain with (e := RevertOne).
+              ** exact HL.
+              ** unfold sched. rewrite Eo, Erv, El, Elt, Eb. reflexivity.
+              ** simpl. rewrite Erv, El, Hoe, Elt, Eb, Ep. reflexivity.
+              ** right; reflexivity.
+              ** exact HXL.
+              ** unfold XR; simpl. exact I.
+              ** eapply NT_pop with (s := s) (b := hd); simpl; auto.
+              ** eapply NW_pop with (s := s) (b := hd); simpl; auto. rewrite El; auto.
+              ** simpl. rewrite Eo. simpl; lia.
+           ++ eapply progress_chain with (e := RevertOne).
+              ** exact HL.
+              ** unfold sched. rewrite Eo, Erv, El, Elt, Eb. reflexivity.
+              ** simpl. rewrite Erv, El, Hoe, Elt, Eb, Ep. reflexivity.
+              ** right; reflexivity.
+              ** exact HXL.
+              ** unfold XR; simpl. split; [intros H; contradiction|intros H; discriminate].
+              ** eapply NT_pop with (s := s) (b := hd); simpl; auto.
+              ** eapply NW_pop with (s := s) (b := hd); simpl; auto. rewrite El; auto.
+              ** simpl. rewrite Eo. simpl; lia.
+      * (* comparison fetch failed *)
+        assert (fresh = false) as ->.
+        { destruct fresh; auto. destruct (HF eq_refl) as [hd' [rest' [E [H|[[H _]|[rb' [H Hd]]]]]]];
+            injection E as <- <-; try discriminate. apply N.ltb_lt in H. congruence. }
+        eapply progress_same with (e := RevertStop).
+        -- exact HL.
+        -- unfold sched. rewrite Eo, Erv, El, Elt. reflexivity.
+        -- simpl. rewrite Erv, El, Elt. reflexivity.
+        -- exact I.
+        -- reflexivity.
+        -- exact HXL.
+        -- unfold XR; simpl. exact I.
+        -- unfold base at 1. simpl. unfold base. rewrite Erv, Eo. simpl; lia.
+      * (* comparison not made yet *)
+        destruct (at_num (src s) (num hd)) as [rb|] eqn:Ea.
+        -- eapply progress_same with (e := RevFetchOk).
+           ++ exact HL.
+           ++ unfold sched. rewrite Eo, Erv, El, Elt, Ea. reflexivity.
+           ++ simpl. rewrite Erv, El, Hleb, Ea. reflexivity.
+           ++ exact I.
+           ++ reflexivity.
+           ++ exact HXL.
+           ++ unfold XR; simpl. split.
+              ** intros _. exists hd, rest. rewrite El. auto.
+              ** intros Hf. exists hd, rest. rewrite El. split; auto. right; right.
+                 destruct (HF Hf) as [hd' [rest' [E [H|[[_ [rb' [H Hd]]]|[rb' [H _]]]]]]];
+                   injection E as <- <-; try discriminate.
+                 --- lia.
+                 --- rewrite Ea in H. injection H as <-. exists rb; auto.
+           ++ unfold base. simpl. rewrite Erv, Eo. destruct fresh; simpl; lia.
+        -- eapply progress_same with (e := RevFetchErr).
+           ++ exact HL.
+           ++ unfold sched. rewrite Eo, Erv, El, Elt, Ea. reflexivity.
+           ++ simpl. rewrite Erv, El, Hleb. reflexivity.
+           ++ exact I.
+           ++ reflexivity.
+           ++ exact HXL.
+           ++ unfold XR; simpl. split.
+              ** intros _. exists hd, rest. rewrite El. auto.
+              ** intros Hf. exfalso.
+                 destruct (HF Hf) as [hd' [rest' [E [H|[[_ [rb' [H Hd]]]|[rb' [H _]]]]]]];
+                   injection E as <- <-; try discriminate.
+                 --- lia.
+                 --- rewrite Ea in H. discriminate.
+           ++ unfold base. simpl. rewrite Erv, Eo. destruct fresh; simpl; lia.
+Qed.
+
+Lemma ext_or_mismatch : forall s b, num b = next_h s ->
+  extendsb (loc s) b = false -> mismatchb (loc s) b = false -> False.
+Proof.
+  intros s b Hn He Hm. unfold next_h in Hn. destruct (loc s) as [|hd rest]; simpl in *.
+  - rewrite Hn in *. simpl in *. destruct (par b =? 0); simpl in *; discriminate.
+  - rewrite Hn, N.eqb_refl in *. simpl in *. destruct (par b =? bid hd); simpl in *; discriminate.
+Qed.
+
+Lemma prog_idle_pend : forall s b, Live s -> obox s = [] -> rv s = RIdle -> canc s = false ->
+  at_num (pend s) (next_h s) = Some b -> Progress s.
+Proof.
+  intros s b HL Eo Erv Ec Ea.
+  pose proof HL as [[[[Hsl [Hsh [Hok Hu]]] [[_ [Hll [Hlh _]]] _]] [Hfi [Hfp _]]] [HXL [HXR [HNT HNW]]]].
+  assert (Hoe : obox_empty s = true) by (unfold obox_empty; rewrite Eo; reflexivity).
+  apply at_num_some in Ea as Ea'. destruct Ea' as [Hbp Hbn].
+  assert (Hbs : In b (src s)) by auto.
+  assert (Hmb : memb b (pend s) = true) by (apply In_memb; auto).
+  destruct (extendsb (loc s) b) eqn:Ee.
+  - (* StoreOk *)
+    eapply progress_chain with (e := StoreOk b).
+    + exact HL.
+    + unfold sched. rewrite Eo, Erv, Ec, Ea, Ee. reflexivity.
+    + simpl. rewrite Ec, Erv, Hoe, Hmb, Ee. reflexivity.
+    + left; eauto.
+    + exact HXL.
+    + unfold XR; simpl. rewrite Erv. exact I.
+    + eapply NT_push with (s := s) (b := b); simpl; auto. apply extends_linked; auto.
+    + eapply NW_push with (s := s) (b := b); simpl; auto. apply extends_linked; auto.
+    + simpl. destruct (cur s) as [[? ?]|]; simpl; lia.
+  - destruct (mismatchb (loc s) b) eqn:Em; [|exfalso; eapply ext_or_mismatch; eauto].
+    (* ErrParentDoesNotMatchHead *)
+    eapply progress_same with (e := StoreParentMismatch b).
+    + exact HL.
+    + unfold sched. rewrite Eo, Erv, Ec, Ea, Ee, Em. reflexivity.
+    + simpl. rewrite Ec, Erv, Hoe, Hmb, Em. reflexivity.
+    + exact I.
+    + reflexivity.
+    + exact HXL.
+    + unfold XR; simpl. split; [intros H; contradiction|]. intros _.
+      destruct (loc s) as [|hd rest] eqn:El.
+      * exfalso. simpl in Em. apply andb_true_iff in Em. destruct Em as [E0 Ep].
+        apply N.eqb_eq in E0. apply negb_true_iff, N.eqb_neq in Ep.
+        apply Ep. apply (linked_gen_par (src s)); auto.
+      * exists hd, rest. split; auto.
+        destruct (mismatch_head _ _ _ Em) as [Hn Hp].
+        destruct (N.eq_dec (num hd) 0) as [Hz|Hz].
+        -- right; left. split; auto.
+           destruct (linked_pred (src s) b Hsl Hbs) as [p [Hps [Hpn Hpp]]]; [lia|].
+           exists p. split.
+           ++ replace (num hd) with (num p) by lia. apply at_num_in; auto.
+           ++ rewrite <- Hpp. auto.
+        -- left. unfold wsub2.
+           destruct (num b =? 0) eqn:E0; [apply N.eqb_eq in E0; lia|].
+           destruct (num b =? 1) eqn:E1; [apply N.eqb_eq in E1; lia|]. lia.
+    + unfold base. simpl. rewrite Erv, Ec, Ea, Eo. simpl; lia.
+Qed.
+
+Lemma prog_idle_reset : forall s, Live s -> obox s = [] -> rv s = RIdle -> canc s = true -> Progress s.
+Proof.
+  intros s HL Eo Erv Ec. pose proof HL as [_ [HXL [HXR _]]].
+  assert (Hoe : obox_empty s = true) by (unfold obox_empty; rewrite Eo; reflexivity).
+  eapply progress_same with (e := Reset).
+  - exact HL.
+  - unfold sched. rewrite Eo, Erv, Ec. reflexivity.
+  - simpl. rewrite Erv, Hoe. reflexivity.
+  - exact I.
+  - reflexivity.
+  - unfold XL; simpl. intros; discriminate.
+  - unfold XR; simpl. exact I.
+  - unfold base. simpl. rewrite Erv, Ec, Eo. simpl; lia.
+Qed.
+
+Lemma prog_idle_verify : forall s b, Live s -> obox s = [] -> rv s = RIdle -> canc s = false ->
+  at_num (pend s) (next_h s) = None -> at_num (infl s) (next_h s) = Some b -> Progress s.
+Proof.
+  intros s b HL Eo Erv Ec Eap Eai.
+  pose proof HL as [[[[Hsl [Hsh [Hok Hu]]] _] [Hfi _]] [HXL [HXR _]]].
+  apply at_num_some in Eai as Ei. destruct Ei as [Hbi Hbn].
+  assert (Hokb : okb b = true) by (apply Hok, Hsh, Hfi; auto).
+  eapply progress_same with (e := Verify b).
+  - exact HL.
+  - unfold sched. rewrite Eo, Erv, Ec, Eap, Eai. reflexivity.
+  - simpl. rewrite (In_memb b (infl s) Hbi), Hokb. reflexivity.
+  - exact I.
+  - reflexivity.
+  - exact HXL.
+  - unfold XR; simpl. rewrite Erv. exact I.
+  - unfold base. simpl. rewrite Erv, Ec, Eap, Eai, Eo.
+    change (next_h (set_pend s (b :: pend s))) with (next_h s).
+    unfold at_num; simpl. rewrite Hbn, N.eqb_refl. simpl; lia.
+Qed.
+
+Lemma prog_idle_fetch : forall s b, Live s -> obox s = [] -> rv s = RIdle -> canc s = false ->
+  at_num (pend s) (next_h s) = None -> at_num (infl s) (next_h s) = None ->
+  at_num (src s) (next_h s) = Some b -> Progress s.
+Proof.
+  intros s b HL Eo Erv Ec Eap Eai Eas. pose proof HL as [_ [HXL [HXR _]]].
+  apply at_num_some in Eas as Es. destruct Es as [_ Hbn].
+  eapply progress_same with (e := FetchOk (next_h s)).
+  - exact HL.
+  - unfold sched. rewrite Eo, Erv, Ec, Eap, Eai, Eas. reflexivity.
+  - simpl. rewrite Eas. reflexivity.
+  - exact I.
+  - reflexivity.
+  - exact HXL.
+  - unfold XR; simpl. rewrite Erv. exact I.
+  - unfold base. simpl. rewrite Erv, Ec, Eap, Eai, Eo.
+    change (next_h (set_infl s (b :: infl s))) with (next_h s).
+    unfold at_num; simpl. rewrite Hbn, N.eqb_refl. destruct (find _ (pend s)); destruct (lat s); simpl; lia.
+Qed.
+
+Lemma converged_intro : forall s, loc s = src s -> rv s = RIdle -> obox s = [] -> converged s = true.
+Proof.
+  intros s El Erv Eo. unfold converged, obox_empty. rewrite El, Erv, Eo, blocks_eqb_refl. reflexivity.
+Qed.
+
+Lemma prog_idle_latest : forall s, Live s -> obox s = [] -> rv s = RIdle -> canc s = false ->
+  converged s = false ->
+  at_num (pend s) (next_h s) = None -> at_num (infl s) (next_h s) = None ->
+  at_num (src s) (next_h s) = None -> lat s = None -> Progress s.
+Proof.
+  intros s HL Eo Erv Ec Hnc Eap Eai Eas Ela. pose proof HL as [_ [HXL [HXR [HNT _]]]].
+  destruct (src s) as [|t c] eqn:Es.
+  - exfalso. destruct (loc s) as [|hd rest] eqn:El.
+    + rewrite converged_intro in Hnc; [discriminate| | |]; auto. rewrite El, Es; auto.
+    + apply HNT. unfold strict_prefix. rewrite Es, El. split; [intros x []|simpl; lia].
+  - eapply progress_same with (e := FetchLatest).
+    + exact HL.
+    + unfold sched. rewrite Eo, Erv, Ec, Eap, Eai, Es, Eas, Ela. reflexivity.
+    + simpl. rewrite Es. reflexivity.
+    + exact I.
+    + reflexivity.
+    + unfold XL; simpl. intros h g H. injection H as <- _. rewrite Es. reflexivity.
+    + unfold XR; simpl. rewrite Erv. exact I.
+    + unfold base. simpl. rewrite Erv, Ec, Eap, Eai, Ela, Eo. change (next_h (set_lat s (Some (t, true)))) with (next_h s). rewrite Eap, Eai. simpl; lia.
+Qed.
+
+(* the source's tip is in the local chain, same hash: local = source, or a strict prefix *)
+Lemma tip_in_loc_cases : forall s t, Live s -> tip (src s) = Some t -> In t (loc s) ->
+  loc s = src s \/ strict_prefix (src s) (loc s).
+Proof.
+  intros s t HL Ht Hin.
+  pose proof HL as [[[[Hsl [Hsh [Hok Hu]]] [[_ [Hll [Hlh _]]] _]] _] _].
+  assert (Hincl : incl (src s) (loc s)).
+  { apply (chain_incl (hist s) (loc s) Hu Hll Hlh (src s) Hsl Hsh).
+    intros t' Ht'. rewrite Ht in Ht'. injection Ht' as <-. exact Hin. }
+  pose proof (NoDup_incl_length (linked_NoDup _ Hsl) Hincl) as Hlen.
+  destruct (Nat.eq_dec (length (src s)) (length (loc s))) as [E|E].
+  - left. apply linked_same_set_eq; auto.
+    apply NoDup_length_incl; auto; [apply linked_NoDup; auto|lia].
+  - right. split; auto. lia.
+Qed.
+
+Lemma prog_idle_check : forall s hdr g, Live s -> obox s = [] -> rv s = RIdle -> canc s = false ->
+  converged s = false ->
+  at_num (pend s) (next_h s) = None -> at_num (infl s) (next_h s) = None ->
+  at_num (src s) (next_h s) = None -> lat s = Some (hdr, g) -> Progress s.
+Proof.
+  intros s hdr g HL Eo Erv Ec Hnc Eap Eai Eas Ela.
+  pose proof HL as [[[[Hsl [Hsh [Hok Hu]]] [[_ [Hll [Hlh _]]] _]] _] [HXL [HXR [HNT HNW]]]].
+  pose proof (HXL hdr g Ela) as Htip. pose proof (tip_In _ _ Htip) as Hhs.
+  destruct (loc s) as [|hd rest] eqn:El.
+  - (* empty local chain: the source has a genesis, so the fetch of 0 cannot have failed *)
+    exfalso. destruct (src s) as [|t c] eqn:Es; [inversion Hhs|].
+    destruct (linked_has c t 0 Hsl) as [a [Ha Hna]]; [lia|].
+    unfold next_h in Eas. rewrite El in Eas.
+    apply (at_num_none _ _ Eas a Ha Hna).
+  - assert (Hh : next_h s = num hd + 1) by (unfold next_h; rewrite El; reflexivity).
+    assert (Hle : num hdr <= num hd).
+    { destruct (N.le_gt_cases (num hdr) (num hd)) as [H|H]; auto. exfalso.
+      destruct (src s) as [|t c] eqn:Es; [inversion Hhs|]. injection Htip as ->.
+      destruct (linked_has c hdr (num hd + 1) Hsl) as [a [Ha Hna]]; [lia|].
+      rewrite Hh in Eas. apply (at_num_none _ _ Eas a Ha Hna). }
+    destruct (linked_has rest hd (num hdr) Hll Hle) as [a [Ha Hna]].
+    assert (Eal : at_num (hd :: rest) (num hdr) = Some a) by (rewrite <- Hna; apply at_num_in; auto).
+    assert (Eltb : (num hd <? num hdr) = false) by (apply N.ltb_ge; lia).
+    assert (Eguard : negb (num hd + 1 =? next_h s) || negb (is_idle (rv s)) = false)
+      by (rewrite Hh, N.eqb_refl, Erv; reflexivity).
+    destruct (bid a =? bid hdr) eqn:Eb.
+    + (* same hash at that height: local = source (converged) or the source is a strict prefix *)
+      exfalso. apply N.eqb_eq in Eb.
+      assert (a = hdr) by (apply Hu; auto). subst a.
+      assert (Hin : In hdr (loc s)) by (rewrite El; auto).
+      destruct (tip_in_loc_cases s hdr HL Htip Hin) as [E|E].
+      * rewrite converged_intro in Hnc; auto. discriminate.
+      * apply HNT; auto.
+    + apply N.eqb_neq in Eb.
+      eapply progress_same with (e := ReorgCheck (next_h s)).
+      * exact HL.
+      * unfold sched. rewrite Eo, Erv, Ec, Eap, Eai, Eas, Ela. reflexivity.
+      * simpl. rewrite El, Eguard, Ela, Eltb, Eal. rewrite (proj2 (N.eqb_neq _ _) Eb). reflexivity.
+      * exact I.
+      * simpl. rewrite El. reflexivity.
+      * unfold XL; simpl. intros; discriminate.
+      * unfold XR; simpl. split; [intros H; contradiction|]. intros _.
+        exists hd, rest. rewrite El. split; auto.
+        destruct (N.eq_dec (num hdr) 0) as [Hz|Hz].
+        -- (* remote height 0: only a one-block local chain makes progress (NW) *)
+           right; left. split; auto.
+           destruct (src s) as [|t c] eqn:Es; [inversion Hhs|]. injection Htip as ->.
+           assert (c = []) as ->.
+           { destruct c as [|p c]; auto. apply linked_cons2 in Hsl. lia. }
+           assert (Ehdr : at_num [hdr] 0 = Some hdr) by (unfold at_num; simpl; rewrite Hz; reflexivity).
+           assert (rest = []) as ->.
+           { destruct rest as [|p r]; auto. exfalso. apply HNW. rewrite Es, El.
+             split; [reflexivity|]. split; [simpl; lia|].
+             rewrite Ehdr. rewrite Hz in Eal. rewrite Eal. intro H. injection H as ->. auto. }
+           destruct Ha as [<-|[]]. exists hdr. rewrite Hna, Hz. split; auto.
+        -- left. unfold wsub1. destruct (num hdr =? 0) eqn:E0; [apply N.eqb_eq in E0; lia|]. lia.
+      * unfold base. simpl. rewrite Erv, Ec, Eo.
+        change (next_h (set_lat (set_rv s (RRun (wsub1 (num hdr)) None (EvLatest hdr g) true)) None)) with (next_h s).
+        rewrite Eap, Eai, Ela. simpl; lia.
+Qed.
+
+(* ---------- every fair-scheduler step is progress ---------- *)
+Lemma sched_progress : forall s, Live s -> converged s = false -> Progress s.
+Proof.
+  intros s HL Hnc.
+  destruct (obox s) as [|o r] eqn:Eo; [|eapply prog_notify; eauto].
+  destruct (rv s) as [|lpv cmp ev fresh] eqn:Erv; [|eapply prog_rrun; eauto].
+  destruct (canc s) eqn:Ec; [eapply prog_idle_reset; eauto|].
+  destruct (at_num (pend s) (next_h s)) as [b|] eqn:Eap; [eapply prog_idle_pend; eauto|].
+  destruct (at_num (infl s) (next_h s)) as [b|] eqn:Eai; [eapply prog_idle_verify; eauto|].
+  destruct (at_num (src s) (next_h s)) as [b|] eqn:Eas; [eapply prog_idle_fetch; eauto|].
+  destruct (lat s) as [[hdr g]|] eqn:Ela; [eapply prog_idle_check; eauto|eapply prog_idle_latest; eauto].
+Qed.
+
+Lemma fair_converges : forall n s, Live s -> (fair_measure s <= n)%nat ->
+  converged (run_fair n s) = true /\ Live (run_fair n s) /\ src (run_fair n s) = src s.
+Proof.
+  induction n as [|n IH]; intros s HL Hm.
+  - simpl. destruct (converged s) eqn:Ec; [auto|].
+    destruct (sched_progress s HL Ec) as [e [s' [_ [_ [_ Hlt]]]]]. lia.
+  - simpl. destruct (converged s) eqn:Ec; [auto|].
+    destruct (sched_progress s HL Ec) as [e [s' [Hs [Hst [HL' Hlt]]]]].
+    rewrite Hs, Hst. destruct (IH s' HL') as [A [B C]]; [lia|].
+    split; [auto|]. split; [auto|]. rewrite C. eapply honest_src; eauto using sched_honest.
+Qed.
+
+Lemma converged_eq : forall s, converged s = true -> Live s -> loc s = src s.
+Proof.
+  intros s H HL. pose proof HL as [[HI _] _].
+  unfold converged in H. repeat rewrite andb_true_iff in H. destruct H as [[H _] _].
+  revert H. generalize (loc s) (src s). induction l as [|a l IH]; intros [|b m] H; simpl in H; try discriminate; auto.
+  apply andb_true_iff in H. destruct H as [H1 H2]. apply beq_true in H1. subst. f_equal; auto.
+Qed.
+
+(* a state right after a stream restart meets the pipeline-consistency part of Live *)
+Lemma reset_live : forall s s', reachable s -> step s Reset = Some s' -> NT s' -> NW s' -> Live s'.
+Proof.
+  intros s s' R H HNT HNW. pose proof (reset_good s s' R H) as HG.
+  simpl in H. destruct (is_idle (rv s) && obox_empty s); [|discriminate]. injection H as <-.
+  split; [exact HG|]. split; [unfold XL; simpl; intros; discriminate|].
+  split; [unfold XR; simpl; exact I|]. auto.
+Qed.
+
+Lemma fair_measure_bound : forall s, (fair_measure s <= 64 * dist s + 40 + length (obox s))%nat.
+Proof. intros s. unfold fair_measure. pose proof (base_le s). lia. Qed.
+
+Lemma converges_lemma : forall s, Live s ->
+  converged (run_fair (fair_measure s) s) = true /\
+  loc (run_fair (fair_measure s) s) = src s /\
+  (fair_measure s <= 64 * dist s + 40 + length (obox s))%nat.
+Proof.
+  intros s HL. destruct (fair_converges (fair_measure s) s HL (le_n _)) as [A [B C]].
+  split; [exact A|]. split; [|apply fair_measure_bound].
+  rewrite <- C. apply converged_eq; auto.
+Qed.
+
+Lemma converges_after_restart_lemma : forall s s', reachable s -> step s Reset = Some s' ->
+  NT s' -> NW s' ->
+  converged (run_fair (fair_measure s') s') = true /\
+  loc (run_fair (fair_measure s') s') = src s' /\
+  fair_measure s' = (64 * dist s' + 28)%nat.
+Proof.
+  intros s s' R H HNT HNW. pose proof (reset_live s s' R H HNT HNW) as HL.
+  destruct (converges_lemma s' HL) as [A [B _]]. split; [exact A|]. split; [exact B|].
+  simpl in H. destruct (is_idle (rv s) && obox_empty s); [|discriminate]. injection H as <-.
+  unfold fair_measure, base. simpl. lia.
+Qed.
+
+(* between two StoreOk / RevertOne events the scheduler takes at most 40 + |owed sends| steps:
+   every restart cycle reaches one (or convergence) *)
+Lemma reachable_step : forall s e s', reachable s -> step s e = Some s' -> reachable s'.
+Proof.
+  intros s e s' [es H] Hs. exists (es ++ [e]).
+  revert H. generalize init. induction es as [|x es IH]; intros s0 H; simpl in *.
+  - injection H as ->. rewrite Hs. reflexivity.
+  - destruct (step s0 x); [|discriminate]. apply IH; auto.
+Qed.
+
+Lemma reachable_run_fair : forall n s, reachable s -> reachable (run_fair n s).
+Proof.
+  induction n as [|n IH]; intros s R; simpl; auto.
+  destruct (converged s); auto. destruct (sched s) as [e|]; auto.
+  destruct (step s e) as [s'|] eqn:E; auto. apply IH. eapply reachable_step; eauto.
+Qed.
+
+Lemma reachable_run : forall es s s', reachable s -> run s es = Some s' -> reachable s'.
+Proof.
+  induction es as [|e es IH]; intros s s' R H; simpl in H.
+  - injection H as <-; auto.
+  - destruct (step s e) as [s1|] eqn:E; [|discriminate].
+    apply (IH s1 s'); [eapply reachable_step; eauto|exact H].
 Qed.
